@@ -10,20 +10,23 @@ LEVEL_NOTE = ("C07 (partial w.r.t. floating-point rounding): theorems over exact
               "exactly representable, well-conditioned inputs with tolerance 2^-40 (2^-17 where the implementation itself "
               "computes in float32: 1-D MSE/R2 class states, Wasserstein1D without explicit weights); plain history streams "
               "(no isolation of merge sources: /repo 5bc2ee2 clones adopted tensors); a non-interference probe re-checks that; "
+              "FrechetAudioDistance: the model receives the embedded frames of a fixed dyadic Linear(4,3) (exact in float32), compute() runs in float32 "
+              "with sqrt of eigenvalues: tolerance 2^-10, >= 5 frames per side per update; the eigenvalue term is uninterpreted (mpmath, 200 bits); "
               "ill-conditioned clause: covered for Covariance only (offset stream: values 2^30 + j/8, |mean| >> spread, tolerance 2^-16 "
               "chosen from the conditioning -- demean-first passes, X'X - n mean mean' fails), near-constant-target R2 and near-equal "
               "Wasserstein distributions are NOT covered beyond exact degenerate cases; extreme logits (|x| up to 100) for NE are exact "
               "(mpmath); float32-accumulator sensitivity for PSNR via squared-error sums needing > 24 bits")
 
 NAMES = ["Mean", "Sum", "Max", "Min", "Throughput", "Cat", "AUC", "Covariance", "MeanSquaredError", "R2Score",
-         "Wasserstein1D", "PeakSignalNoiseRatio", "BinaryNormalizedEntropy", "Perplexity"]
+         "Wasserstein1D", "PeakSignalNoiseRatio", "BinaryNormalizedEntropy", "Perplexity", "FrechetAudioDistance"]
 
 
 def run(ctx):
     ents = [entry(n) for n in NAMES]
     bad = streams.hist_corr(ctx, ents=ents, nhist=ctx.n(14, 150))
     rs.report(ctx, bad, "tie:corr", "history_vs_model")
-    streams.fn_corr(ctx, ents=ents)
+    from ..families.fad import FRECHET_FN
+    streams.fn_corr(ctx, ents=ents + [FRECHET_FN])
     bad = rs.directed_histories(ctx, ents)
     rs.report(ctx, bad, "tie:directed", "directed_history_vs_model")
     rs.alias_probe(ctx, ents)
